@@ -1,14 +1,17 @@
 // C14 harness: etl bit / integer utilities (impl leg) vs libstdc++ <bit>/<numeric>/<utility> and
 // exact __int128 arithmetic (reference leg).
 //
-// Case lines (types: i8 u8 i16 u16 i32 u32 i64 u64, plus ill/ull = long long / unsigned long long
-// for the single-type operations):
+// Case lines (types: i8 u8 i16 u16 i32 u32 i64 u64, plus ill/ull = long long / unsigned long long):
 //   bits  <ut> <x>            popcount popcount_fallback countl_zero countl_one countr_zero countr_one
 //                             bit_width bit_floor has_single_bit bit_ceil('-' outside its domain)
 //   rot   <ut> <x> <s>        rotl rotr
 //   bit   <ut> <word> <pos>   set_bit reset_bit flip_bit test_bit set_bit(..,false) set_bit(..,true)
+//   tbit  <ut> <word> <Pos>   the template<size_t Pos> overloads, Pos < digits: set_bit<Pos>(word) reset_bit<Pos>(word)
+//                             flip_bit<Pos>(word) test_bit<Pos>(word) set_bit<Pos>(word,false) set_bit<Pos>(word,true)
+//                             (every Pos of every type is instantiated; Pos >= digits does not compile: `static_assert`)
+//   ipowb <t> <Base> <e>      ipow<Base>(e) for Base in {0,1,2,3,10,-1,-2} (the shift for Base == 2, else ipow(Base, e))
 //   bswap <t> <x>             byteswap [byteswap_fallback for unsigned 16/32/64]
-//   hton  <t> <x>             hton ntoh                    (t in u8 i8 u16 u32)
+//   hton  <t> <x>             hton ntoh                    (t in u8 i8 c8 u16 u32; c8 = char)
 //   add_sat <t> <x> <y>       add_sat add_sat_fallback
 //   div_sat <t> <x> <y>
 //   midpoint <t> <a> <b>
@@ -158,6 +161,30 @@ struct ct_bits {
     static constexpr std::array<R, N> table = make();   // evaluated at compile time
 };
 
+// ---- template<size_t Pos> overloads of the single-bit functions: run-time Pos -> instantiation ---------------------
+template <typename T, std::size_t P>
+static void tpl_emit(T word, Out& o)
+{
+    put(o, etl::set_bit<P>(word));
+    put(o, etl::reset_bit<P>(word));
+    put(o, etl::flip_bit<P>(word));
+    o.b(etl::test_bit<P>(word));
+    put(o, etl::set_bit<P>(word, false));
+    put(o, etl::set_bit<P>(word, true));
+}
+template <typename T, std::size_t... P>
+static bool tpl_dispatch(u64 pos, T word, Out& o, std::index_sequence<P...>)
+{
+    return ((pos == P ? (tpl_emit<T, P>(word, o), true) : false) || ...);
+}
+
+// ---- ipow<Base>: run-time base -> instantiation -----------------------------------------------------------------
+template <typename T, int... B>
+static bool ipowb_dispatch(i64 base, T e, Out& o, std::integer_sequence<int, B...>)
+{
+    return ((base == B ? (put(o, etl::ipow<static_cast<T>(B)>(e)), true) : false) || ...);
+}
+
 // ---- single cases -----------------------------------------------------------------------
 static bool run_one(std::string const& op, Toks& in, Out& impl, Out& ref)
 {
@@ -248,6 +275,63 @@ static bool run_one(std::string const& op, Toks& in, Out& impl, Out& ref)
             }
         });
     }
+    if (op == "tbit") {
+        auto t = in.str();
+        auto ws = in.str();
+        auto ps = in.str();
+        return with_unsigned(t, [&](auto tg) {
+            using T = typename decltype(tg)::type;
+            constexpr int W = std::numeric_limits<T>::digits;
+            T word = parse<T>(ws);
+            u64 pos = parse<u64>(ps);
+            if (pos >= static_cast<u64>(W)) { impl.tok("static_assert"); return; }
+            guarded(impl, [&](Out& o) {
+                o.tok("ok");
+                if (!tpl_dispatch<T>(pos, word, o, std::make_index_sequence<static_cast<std::size_t>(W)>{})) { o.tok("no-instantiation"); }
+            });
+            u128 p2 = static_cast<u128>(1) << static_cast<int>(pos);
+            u128 wv = word;
+            bool b = ((wv / p2) % 2) == 1;
+            u128 set = b ? wv : wv + p2;
+            u128 clr = b ? wv - p2 : wv;
+            ref.tok("ok").unum(static_cast<u64>(set)).unum(static_cast<u64>(clr)).unum(static_cast<u64>(b ? clr : set)).b(b)
+                .unum(static_cast<u64>(clr)).unum(static_cast<u64>(set));
+        });
+    }
+    if (op == "ipowb") {
+        auto t = in.str();
+        i64 base = in.num();
+        auto es = in.str();
+        return with_type(t, [&](auto tg) {
+            using T = typename decltype(tg)::type;
+            T e = parse<T>(es);
+            i128 X = base;
+            i128 Y = e;
+            if (!fits<T>(X)) { impl.tok("no-instantiation"); return; }
+            guarded(impl, [&](Out& o) {
+                o.tok("ok");
+                bool done = false;
+                if constexpr (std::is_signed_v<T>) {
+                    done = ipowb_dispatch<T>(base, e, o, std::integer_sequence<int, 0, 1, 2, 3, 10, -1, -2>{});
+                } else {
+                    done = ipowb_dispatch<T>(base, e, o, std::integer_sequence<int, 0, 1, 2, 3, 10>{});
+                }
+                if (!done) { o.tok("no-instantiation"); }
+            });
+            if (Y >= 0) {
+                i128 r = 1;
+                bool okp = true;
+                for (i128 k = 0; k < Y && okp; ++k) {
+                    if (iabs(X) > 1 && iabs(r) > (static_cast<i128>(1) << 64) / iabs(X)) { okp = false; break; }
+                    r *= X;
+                    if (!fits<T>(r)) { okp = false; }
+                    if (r == 0 || r == 1) { break; }
+                    if (r == -1) { r = ((Y - k - 1) % 2 == 0) ? -1 : 1; break; }
+                }
+                if (okp) { ref.tok("ok"); put(ref, static_cast<T>(r)); }
+            }
+        });
+    }
     if (op == "bswap") {
         auto t = in.str();
         auto xs = in.str();
@@ -285,6 +369,13 @@ static bool run_one(std::string const& op, Toks& in, Out& impl, Out& ref)
             auto x = parse<etl::int8_t>(xs);
             guarded(impl, [&](Out& o) { o.tok("ok"); put(o, net::hton(x)); put(o, net::ntoh(x)); });
             ref.tok("ok"); put(ref, x); put(ref, x);
+            return true;
+        }
+        if (t == "c8") {
+            auto x = static_cast<char>(parse<etl::int8_t>(xs));
+            guarded(impl, [&](Out& o) { o.tok("ok"); put(o, static_cast<etl::int8_t>(net::hton(x))); put(o, static_cast<etl::int8_t>(net::ntoh(x))); });
+            static_assert(std::is_same_v<decltype(net::hton(x)), char> && std::is_same_v<decltype(net::ntoh(x)), char>);
+            ref.tok("ok"); put(ref, static_cast<etl::int8_t>(x)); put(ref, static_cast<etl::int8_t>(x));
             return true;
         }
         if (t == "u16") {
@@ -349,9 +440,9 @@ static bool run_one(std::string const& op, Toks& in, Out& impl, Out& ref)
         auto ns = in.str();
         bool isg = op == "gcd";
         bool okk = false;
-        with_fixed(tm, [&](auto tgm) {
+        with_type(tm, [&](auto tgm) {
             using M = typename decltype(tgm)::type;
-            okk = with_fixed(tn, [&](auto tgn) {
+            okk = with_type(tn, [&](auto tgn) {
                 using N = typename decltype(tgn)::type;
                 using R = std::common_type_t<M, N>;
                 M m = parse<M>(ms);
@@ -406,9 +497,9 @@ static bool run_one(std::string const& op, Toks& in, Out& impl, Out& ref)
         auto bs = in.str();
         bool isc = op == "cmp";
         bool okk = false;
-        with_fixed(ta, [&](auto tga) {
+        with_type(ta, [&](auto tga) {
             using A = typename decltype(tga)::type;
-            okk = with_fixed(tb, [&](auto tgb) {
+            okk = with_type(tb, [&](auto tgb) {
                 using B = typename decltype(tgb)::type;
                 if (isc) {
                     A a = parse<A>(as);
